@@ -680,3 +680,28 @@ Theorem C02_range_only_file_answers :
   (forall n enc, handle s r = Serve n enc -> respond size_of s r no_cond = AContent n enc CFull).
 Proof. exact range_only_file_answers. Qed.
 Print Assumptions C02_range_only_file_answers.
+
+(* ---- the listing filter is exact (finding F-C02-8, repaired) -------------------------------- *)
+(* an entry of a directory is listed iff it is NOT hidden, where hidden is decided on the identity
+   os.Stat reports — for a symbolic link the identity of its followed target (that is the identity
+   the nodes of the symlink tree [stree_fs] carry): a link to a hidden file is not listed, a link
+   to a visible file is *)
+Theorem C02_listing_visible_iff_target_not_hidden :
+  forall (fs : fsys) (hide : list bytes) (kids : list node) (k : node),
+  In k (visible_kids fs hide kids) <-> In k kids /\ is_hidden fs hide k = false.
+Proof. exact visible_kids_exact. Qed.
+Print Assumptions C02_listing_visible_iff_target_not_hidden.
+
+(* the symlink tree: /l has links to the Casketfile (401) and to /secret.txt (hidden by `internal`):
+   neither is listed; the links to /in.txt and /d are *)
+Example C02_listing_visible_iff_target_not_hidden_nonvacuous :
+  let s := mksite_on stree_fs (bs "/s/root") (bs "/s/root/Casketfile") gen_c02_sinternal [SLASH] [SLASH] [] in
+  match handle s (mkreq 0 (bs "/l/") [] [] []) with
+  | Listing kids =>
+      (existsb (fun k => beq (n_path k) (bs "/l/to-casket")) kids,
+       existsb (fun k => beq (n_path k) (bs "/l/to-secret")) kids,
+       existsb (fun k => beq (n_path k) (bs "/l/to-in")) kids,
+       existsb (fun k => beq (n_path k) (bs "/l/to-dir")) kids)
+  | _ => (true, true, false, false)
+  end = (false, false, true, true).
+Proof. vm_compute. reflexivity. Qed.
